@@ -309,7 +309,7 @@ pub proof fn leaf_axioms_consistent__canary(c: TagClass, s: TagStructure, id: u6
     let ghost n2 = len_hdr(i0.subrange(n1 as int, i0.len() as int))->Ok_0;
     proof {
         assert(i@ == i0.subrange(n1 as int, i0.len() as int).subrange(n2 as int, i0.len() - n1));
-        assert(i@ =~= i0.subrange((n1 + n2) as int, i0.len() as int));
+        assert(i@ =~= i0.subrange((n1 + n2) as int, i0.len() as int)); //# C06+C07.after_the_header_the_input_is_the_headers_rest
     }
 //@ insert after "let mut tv: Vec<StructureTag> = Vec::new();"
             let ghost c0 = content@;
@@ -336,7 +336,7 @@ pub proof fn leaf_axioms_consistent__canary(c: TagClass, s: TagStructure, id: u6
                     lemma_encs_push(c0.subrange(0, p), tv_old, tv@[tv@.len() - 1], tv_old.len());
                     assert(c0.subrange(0, p2).subrange(0, p) =~= c0.subrange(0, p));
                     assert(c0.subrange(0, p2).subrange(p, p2) =~= c0.subrange(p, c0.len() as int).subrange(0, k));
-                    assert(content@ =~= c0.subrange(p2, c0.len() as int));
+                    assert(content@ =~= c0.subrange(p2, c0.len() as int)); //# C07.children_are_parsed_from_consecutive_slices_of_the_contents
                     // functional part: one more child agrees with the reference decoder
                     assert(content@ =~= content_old.subrange(k, content_old.len() as int));
                     lemma_st_trees_push(tv_old, tv@[tv@.len() - 1], tv_old.len());
@@ -347,7 +347,7 @@ pub proof fn leaf_axioms_consistent__canary(c: TagClass, s: TagStructure, id: u6
                     }
                 }
 //@ insert before "PL::P(content.to_vec())"
-            proof { assert(content@ =~= i0.subrange((n1 + n2) as int, (n1 + n2 + len) as int)); }
+            proof { assert(content@ =~= i0.subrange((n1 + n2) as int, (n1 + n2 + len) as int)); } //# C06+C07.primitive_contents_are_exactly_the_announced_octets
 //@ insert before "PL::C(tv)"
             proof {
                 assert(c0.subrange(0, c0.len() as int) =~= c0);
@@ -362,7 +362,7 @@ pub proof fn leaf_axioms_consistent__canary(c: TagClass, s: TagStructure, id: u6
         ax_len_local(i0.subrange(n1 as int, i0.len() as int), n - n1);
         assert(b.subrange(n1 as int, n) =~= i0.subrange(n1 as int, i0.len() as int).subrange(0, n - n1));
         assert(b.subrange((n1 + n2) as int, n) =~= i0.subrange((n1 + n2) as int, i0.len() as int).subrange(0, len as int));
-        assert(i@ =~= i0.subrange(n, i0.len() as int));
+        assert(i@ =~= i0.subrange(n, i0.len() as int)); //# C06.the_rest_returned_is_the_input_after_the_whole_element
     }
 //@ spec
     requires depth <= MAX_NESTING, //# C11.recursion_depth_never_exceeds_MAX_NESTING
